@@ -9,7 +9,10 @@ for d in sorted(glob.glob('seeded/*/')):
     conf = m.get('confirmed_by_integrator', '')
     missed = 'MISSED' in conf
     caught_after = '| after' in conf or 'caught after' in conf or 'caught by' in conf
-    status = 'caught' if not missed else ('missed at first, caught after strengthening' if caught_after else 'missed at first')
+    if 'NOT A VIOLATION' in conf:
+        status = 'not a violation under the documented accepted set'
+    else:
+      status = 'caught' if not missed else ('missed at first, caught after strengthening' if caught_after else 'missed at first')
     sigs = re.findall(r'exit 1 \(([^)]*)\)', conf)
     rows.append((m.get('property', '?'), name, (m.get('title') or m.get('what_it_breaks', ''))[:150].replace('|', '/'),
                  (m.get('needs_to_manifest') or '')[:170].replace('|', '/').replace('\n', ' '), status, '; '.join(sigs)[:160].replace('|', '/')))
